@@ -306,7 +306,7 @@ def plan(tier, rng, sl, nslices, stats):
             yield {"kind": "fst", "t": c}
         elif k == 3:
             c = gcfg.random_case(rng, max_vars=3, max_terms=3, max_prods=6, max_body=3,
-                                 vcs=["str", "lower", "lower"], p_eps=rng.choice([0, 0.2]))
+                                 vcs=["str", "lower", "lower", "odd"], p_eps=rng.choice([0, 0.2]))
             yield {"kind": "cfg", "g": c}
         elif k == 4:
             ast = rs.gen_ast(rng, rng.choice([1, 2, 3]), escaped=0)
